@@ -53,6 +53,9 @@ def harnesses():
                  "Euclid", "CheckedEuclid", "Integer::{div_floor,mod_floor,div_rem,div_mod_floor,div_ceil,is_multiple_of}"],
                 domain="FULL pairs, divisor != 0; inherent div_rem replaced by a tagged mixing function",
                 free_bits=2 * b, stubs=MIXDIV, abstract=True)
+        add("sum_product", "c20::sum_product::<%d,%d>" % (b, l), ["Sum<Uint>", "Sum<&Uint>", "Product<Uint>", "Product<&Uint>"],
+            domain="FULL triples, symbolic element count 0..=3; wrapping_mul replaced by a tagged mixing function",
+            free_bits=3 * b + 2, stubs=MIXMUL, abstract=True, covers_required=["empty"])
         add("nt_misc", "c20::nt_misc::<%d,%d>" % (b, l),
             ["CheckedDiv/CheckedRem/CheckedEuclid on zero divisor", "Integer::{is_multiple_of(0),is_even,is_odd,inc,dec}"],
             domain="FULL value", free_bits=b)
